@@ -65,6 +65,12 @@ def encSent (r : Except Err SentResult × Outcome) : String :=
   | .ok (.parsed ts) =>
     "T " ++ head ++ pops ++ String.join (ts.map fun (t, sc) => " ; R " ++ toString sc ++ " " ++ encTree t)
 
+def encRes (r : Except Err SentResult) : String :=
+  match r with
+  | .error e => "E " ++ e.name
+  | .ok .failed => "F"
+  | .ok (.parsed ts) => "T" ++ String.join (ts.map fun (t, sc) => " ; R " ++ toString sc ++ " " ++ encTree t)
+
 def lazyOp (seenOf : String → Option (Option (List (Cat × Cat)))) (unaryOf : String → Option (List (Cat × List Cat)))
     (ts : List String) : String :=
   match ts with
@@ -82,16 +88,26 @@ def lazyOp (seenOf : String → Option (Option (List (Cat × Cat)))) (unaryOf : 
           | "-" :: ts => some (none, ts)
           | t :: ts => t.toNat?.map fun v => (some v, ts)
           | [] => none)
+        let (chunking, ts) ← (match ts with
+          | "chunks" :: a :: b :: ts => (do let mc ← a.toNat?; let pc ← b.toNat?; pure (some (mc, pc), ts))
+          | ts => some (none, ts))
         let (doc, ts) ← pSents cats.length ts
-        if ts.isEmpty then pure (cats, roots, pen, pr, nb, ms, ml, doc) else none) with
+        if ts.isEmpty then pure (cats, roots, pen, pr, nb, ms, ml, chunking, doc) else none) with
       | none => "bad-op"
-      | some (cats, roots, pen, pr, nb, ms, ml, doc) =>
+      | some (cats, roots, pen, pr, nb, ms, ml, chunking, doc) =>
         let G := grammarFor (lang == "en") seen table
         let cfg : Cfg := { penalty := pen, pruning := pr, nbest := nb, maxStep := ms }
-        match Lazy.runBatch G cats roots cfg ml doc with
-        | .error e => "err " ++ e.name
-        | .ok (outs, gst) =>
-          "ok " ++ toString gst.cats.length ++ String.join (outs.map fun r => " || " ++ encSent r)
+        match chunking with
+        | some (maxChunk, procs) =>
+          -- `depccg.parsing.run` with chunks / worker processes: results only
+          match Lazy.parsingRun G cats roots cfg ml maxChunk procs doc with
+          | .error e => "err " ++ e.name
+          | .ok rs => "ok -" ++ String.join (rs.map fun r => " || " ++ encRes r)
+        | none =>
+          match Lazy.runBatch G cats roots cfg ml doc with
+          | .error e => "err " ++ e.name
+          | .ok (outs, gst) =>
+            "ok " ++ toString gst.cats.length ++ String.join (outs.map fun r => " || " ++ encSent r)
     | _, _ => "bad-op"
   | _ => "bad-op"
 
